@@ -225,7 +225,18 @@ def run(ctx):
                 r.fail(inst, func=s.name, sig=bad[0], loc=c.loc, msg=bad[1], facts={'verdict': v})
             else:
                 r.ok(inst, func=s.name, loc=c.loc, facts={'outcomes': sorted({(k, vv) for k, vv, _ in outs}, key=str)})
-    r.require_min(2)
+    # every supplied fragment is looked at: the calls together run num_fragments times (one loop, or a loop behind peeled calls)
+    from ..poly import Poly as _P12
+    tot12 = shared.total_iterations(P, s, [c_ for c_ in calls if shared._loop_of(s, c_.bb) is not None])
+    peeled12 = sum(1 for c_ in calls if shared._loop_of(s, c_.bb) is None)
+    want12 = _P12.atom('arg2')
+    inst = 'verify_stripe_metadata judges all num_fragments supplied fragments'
+    if tot12 is not None and tot12 + _P12.const(peeled12) == want12:
+        r.ok(inst, func=s.name, loc=calls[0].loc)
+    else:
+        r.fail(inst, func=s.name, sig=f'stripe verification covers {tot12} + {peeled12} fragments', loc=calls[0].loc,
+               msg=f'the validation calls run {tot12} (+ {peeled12} in front of the loop) times, not num_fragments: fragments behind that count are never judged and a bad one among them is accepted')
+    r.require_min(3)
     # ---------------- R12e the backend decides which versions it accepts
     r = ctx.rule('R12e', 'the backend_version of fragment metadata is judged only by the backend\'s is_compatible_with operation',
                  'a direct comparison with the instance\'s own version rejects fragments of backends that accept several versions (e.g. the null backend)')
